@@ -7,7 +7,7 @@
    timers, executor fairness and CPU time are the world, not the model (DESIGN.md 8, 12.2). *)
 From RsdnsModel Require Import Base Client Timed.
 From RsdnsModel.Spec Require Import Retry.
-From RsdnsModel.Proofs Require Import ClientProofs TimedProofs TimedUntimed.
+From RsdnsModel.Proofs Require Import ClientProofs TimedProofs TimedUntimed TimedSame.
 Open Scope N_scope.
 (* every armed timeout is positive (a zero timeout is an error of set_read_timeout) and expires
    no later than the query lifetime; the UDP one also no later than the current attempt *)
@@ -172,3 +172,15 @@ Example C15_in_time_example :
     {| tp_accept := Some 0; tp_bytes := [(1320, x00); (1320, x03); (1320, xaa); (1400, xbb); (1400, xcc)]; tp_eof := Some 1400 |}
   = ([1000; 1300], [EvUdpExchange; EvTcpExchange], Ok [xaa; xbb; xcc], 1400).
 Proof. intros [|]; vm_compute; reflexivity. Qed.
+
+(* ALL FOUR CLIENTS ARE ONE MACHINE OVER TIME (exact timers), for the WHOLE raw query and in EVERY
+   world — any arrivals in any order, any TCP peer (accepting late or never, trickling, stalling,
+   closing early), every strategy: the blocking client, which computes a relative socket timeout
+   from clock readings before every send, receive and read, and the async clients on each runtime,
+   which run under two absolute timers, make the same transmissions at the same instants, start
+   the same exchanges, and return the same result at the same instant *)
+Theorem C15_all_clients_one_machine : forall smol smol' q lifetime qt buf strategy arrs srv,
+  qt_pos qt -> 0 < lifetime ->
+  client_query_timed true smol q lifetime qt zero_jit zero_jit buf strategy arrs srv =
+  client_query_timed false smol' q lifetime qt zero_jit zero_jit buf strategy arrs srv.
+Proof. exact all_clients_one_machine. Qed.
